@@ -85,6 +85,14 @@ CURATED = [
     ('comp', 'none'), ('comp', 'all'), ('comp', 'eps'), ('comp', R), ('comp', ('comp', R)), ('comp', ('star', R)),
     ('comp', ('concat', 'all', ('concat', C, 'all'))), ('diff', R, R), ('diff', ('star', C), 'eps'), ('diff', R, ('ref', 0)),
     ('diff', 'all', ('concat', C, 'all')), ('comp', ('union', C, 'eps')), ('inter', ('comp', C), ('comp', C)),
+    # unions / intersections of complements (subsumption through the complement contraposition)
+    ('union', ('comp', C), ('comp', R)), ('union', ('comp', R), ('comp', C)), ('inter', ('comp', C), ('comp', R)),
+    ('union', ('comp', ('concat', C, 'all')), ('comp', ('str', 2))), ('union', ('comp', C), ('comp', 'allchar')),
+    # powers of multi-character words (singleton languages that are not single characters)
+    ('power', ('str', 2)), ('concat', ('str', 2), ('ref', 0)), ('loop', ('str', 2)), ('concat', C, ('power', ('str', 2))),
+    # chains (exercise the n-ary list constructors and flattening)
+    ('concat', C, ('concat', C, C)), ('union', C, ('union', 'eps', C)), ('inter', ('star', C), ('inter', ('comp', C), 'allchar')),
+    ('diff', ('diff', 'all', C), C), ('union', ('union', C, 'none'), ('union', 'all', C)),
     # nullable left operands (derivative of concat must look at the right operand)
     ('concat', ('star', C), C), ('concat', ('opt', R), ('opt', R)), ('concat', ('union', 'eps', C), R),
     ('concat', ('comp', C), C), ('concat', ('inter', ('star', C), ('star', C)), C),
@@ -115,7 +123,7 @@ def quick_list(prop, seed):
     for sh in CURATED:
         c = costs.get(show(sh))
         if c is None:
-            if nsym(sh) <= 2:
+            if nsym(sh) <= 3:
                 out.append(sh)
         elif c <= QUICK_CPU_CAP.get(prop, 40.0):
             out.append(sh)
@@ -179,6 +187,9 @@ def cat(xs):
 
 
 PAIRS_CURATED = [
+    # flexible slots that are NOT Sigma*: a loop Sigma^[k,inf) with k >= 1 must not be treated as Sigma*
+    (cat([C, C]), cat([C, ('plus', 'allchar'), C])), (C, cat([C, ('loopinf', 'allchar')])), (cat([C, C]), cat([C, ('plus', 'allchar')])),
+    (cat([C, C]), cat([('plus', 'allchar'), C])), (cat([C, 'allchar', C]), cat([C, ('loopinf', 'allchar'), C])),
     (R, R), (C, R), (R, 'allchar'), (R, 'all'), ('none', R), ('eps', ('star', R)), (('star', R), ('star', R)), (('loop', R), ('star', R)),
     (('loop', R), ('loop', R)), (('power', C), ('loop', C)), (('plus', R), ('star', R)), (('opt', R), ('loop', R)),
     (cat([C, 'all']), cat(['allchar', 'all'])), (cat([C, C, 'all']), cat([C, 'all'])), (cat(['all', C]), cat(['all', 'allchar'])),
